@@ -287,6 +287,16 @@ func TestDispatchRoutesByPartIndex(t *testing.T) {
 			return a
 		}))
 		ctx, cancel := context.WithCancel(context.Background())
+		// optionally a dispatch that is abandoned first: its context is already done and the workers are not running yet,
+		// so nothing can be queued beyond the buffers. Whatever of it is not delivered must be gone, not resurface later.
+		abandoned := model.Agg{}
+		if rapid.IntRange(0, 2).Draw(t, "abandoned-dispatch-first") == 0 {
+			dead, kill := context.WithCancel(context.Background())
+			kill()
+			pre := gen.MapFromMetrics(rapid.SliceOfN(metricGen(ts), 1, 12).Draw(t, "abandoned-batch"))
+			abandoned.AddMap(gen.CopyMap(pre))
+			bh.DispatchMetricMap(dead, pre)
+		}
 		done := make(chan struct{})
 		go func() { bh.Run(ctx); close(done) }()
 		want := map[model.Key]int{}
@@ -321,6 +331,13 @@ func TestDispatchRoutesByPartIndex(t *testing.T) {
 			}
 			for _, mm := range a.maps {
 				for _, k := range identOf(mm) {
+					if _, live := want[k]; !live {
+						for k2, i := range splitIndex(t, gen.CopyMap(mm), n) {
+							if _, ok := want[k2]; !ok {
+								want[k2] = i
+							}
+						}
+					}
 					if want[k] != wid {
 						vt.Fail(t, "C06:dispatch-wrong-worker", "series %v received by worker %d, Split assigns part %d of %d", k, wid, want[k], n)
 					}
@@ -328,8 +345,26 @@ func TestDispatchRoutesByPartIndex(t *testing.T) {
 				got.AddMap(mm)
 			}
 		}
-		if d := model.Diff(got, total, model.Opts{}); d != "" {
-			vt.Fail(t, "C06:dispatch-not-conserving", "aggregators together received something else than was dispatched: %s", d)
+		if len(abandoned) == 0 {
+			if d := model.Diff(got, total, model.Opts{}); d != "" {
+				vt.Fail(t, "C06:dispatch-not-conserving", "aggregators together received something else than was dispatched: %s", d)
+			}
+		} else {
+			// parts of the abandoned batch may have been queued (buffered queues) before the dead context won: what arrived is
+			// between "the live batches" and "the live batches plus the abandoned one", and every series sits on its own worker
+			upper := model.Agg{}
+			upper.Merge(total)
+			upper.Merge(abandoned)
+			for k := range got {
+				if _, ok := upper[k]; !ok {
+					vt.Fail(t, "C06:dispatch-not-conserving", "aggregators received series %v that was never dispatched", k)
+				}
+			}
+			for k := range total {
+				if _, ok := got[k]; !ok {
+					vt.Fail(t, "C06:dispatch-not-conserving", "series %v of a live batch reached no aggregator after an abandoned dispatch", k)
+				}
+			}
 		}
 		ev.C().Case(fmt.Sprintf("D|%d|%d|%v", n, q, total.Canon()), n >= 2 && len(total) >= 2, fmt.Sprintf("dispatch-shards=%d", n), fmt.Sprintf("dispatch-queue=%d", q))
 	})
